@@ -2,11 +2,13 @@
    An observation is (status, number of results, number of nil results, concurrent-agrees). *)
 From RP Require Import Lib.Base.
 
-Inductive call_status := StOk | StPanic | StHang.
+Inductive call_status := StOk | StPanic | StHang | StCrash.
+(* StCrash: the call killed its process with an unrecoverable runtime error (out of memory on an
+   input-chosen allocation size, stack exhaustion, concurrent map access) *)
 
 Record call_obs := mkObs { o_status : call_status; o_n : Z; o_nils : Z; o_conc : bool }.
 
-Inductive total_verdict := TotOk | TotPanic | TotHang | TotNil | TotConc.
+Inductive total_verdict := TotOk | TotPanic | TotHang | TotNil | TotConc | TotCrash.
 
 (* returned, without panicking or hanging, no nil message among the results, and the
    16 concurrent calls each gave the sequential result *)
@@ -14,5 +16,6 @@ Definition judge_call (o : call_obs) : total_verdict :=
   match o_status o with
   | StPanic => TotPanic
   | StHang => TotHang
+  | StCrash => TotCrash
   | StOk => if negb (o_nils o =? 0) then TotNil else if negb (o_conc o) then TotConc else TotOk
   end.
